@@ -121,6 +121,35 @@ def truth(world, mbx: str, user: str | None = None):
     return uids, flags
 
 
+def dump(world, mbx: str, user: str | None = None):
+    """(uids, flags, rbits) of a folder, read from the directory and the uidlist independently
+    of pymap: flags are the IMAP names of the info letters (keyword letters a-z as written),
+    the stored recent bit of a message is "its file is in new/" - what the next read-write
+    SELECT would claim (C12 on maildir)"""
+    path = _folder_path(world, mbx, user)
+    _v, _n, recs = read_uidlist(path)
+    files = {}
+    for sub in ('new', 'cur'):
+        d = os.path.join(path, sub)
+        if os.path.isdir(d):
+            for fn in os.listdir(d):
+                key, _, info = fn.partition(':')
+                files[key] = (sub, info, os.path.getsize(os.path.join(d, fn)))
+    m = {'S': '\\Seen', 'T': '\\Deleted', 'F': '\\Flagged', 'R': '\\Answered', 'D': '\\Draft'}
+    uids, flags, rbits = [], [], []
+    for uid, fname in sorted(recs):
+        key = fname.partition(':')[0]
+        if key in files:
+            sub, info, size = files[key]
+            letters = info.partition(',')[2] if info.startswith('2,') else ''
+            uids.append(uid)
+            # the stored attributes of the message: flag letters and the size of its file
+            flags.append(sorted(m.get(c, 'kw-' + c) for c in letters) + [f'size-{size}'])
+            rbits.append(sub == 'new')
+    # pseudo-row 0: the UIDVALIDITY written in the control file
+    return [0] + uids, [[f'validity-{_v}']] + flags, [False] + rbits
+
+
 def store_uids(world, user: str | None = None) -> dict:
     out = {}
     try:
